@@ -44,7 +44,7 @@
   'claims':'per-step lemma over the contracts (format 4): for the code point c and key produced by CmapSubtable4NextCodepoint, the hinted lookup Lookup(c,key) that fills the cache equals the full lookup Lookup(c,0) of the direct path, given the segments are ordered at the index pairs involved'}@*/
 /*@unit {'name':'c13_step12', 'props':['C13'], 'entry':'h_step12', 'backend':'cvc5', 'cost':100, 'no_checks':['--bounds-check','--pointer-check','--div-by-zero-check','--signed-overflow-check','--undefined-shift-check','--pointer-primitive-check'], 'replace':['CmapSubtable12NextCodepoint','CmapSubtable12Lookup'],
   'claims':'per-step lemma over the contracts (format 12): Lookup(c,key) == Lookup(c,0) for the code point and key produced by CmapSubtable12NextCodepoint, given no earlier group contains c (groups ordered at the pair involved)'}@*/
-/*@unit {'name':'c13_direct', 'props':['C13'], 'entry':'h_direct', 'enforce':'DirectCmap_lookup', 'replace':['CmapSubtable4Lookup','CmapSubtable12Lookup'],
+/*@unit {'name':'c13_direct', 'props':['C13'], 'entry':'h_direct', 'backend':'cvc5', 'enforce':'DirectCmap_lookup', 'replace':['CmapSubtable4Lookup','CmapSubtable12Lookup'],
   'claims':'DirectCmap::operator[]: plane split - code points above U+FFFF are answered by the format 12 subtable (0 if the face has none), all others by the format 4 subtable; the preconditions of both lookups hold at the call sites (subtables validated by bmp_subtable/smp_subtable, key 0); nothing is written'}@*/
 /*@unit {'name':'c13_subtables', 'props':['C13'], 'entry':'h_subtables', 'enforce':['bmp_subtable','smp_subtable'], 'replace':['FindCmapSubtable','CheckCmapSubtable4','CheckCmapSubtable12'], 'defines':['STUB_CHECKS'],
   'claims':'bmp_subtable / smp_subtable: the subtable chosen is the first one, in the order (3,1),(0,3),(0,2),(0,1),(0,0) resp. (3,10),(0,4) of (platform, encoding), that exists and passes CheckCmapSubtable4 resp. 12 against the end of the cmap table; NULL if there is none or the table is empty; a non-NULL result has passed its check'}@*/
@@ -53,24 +53,24 @@
 /*@unit {'name':'c13_fill4', 'props':['C13','C01'], 'entry':'h_fill', 'enforce':'cache_subtable', 'min_loops':1, 'defines':['FMT=4','ASSUME_SORTED'], 'backend':'cvc5', 'cost':80,
   'replace':['CmapSubtable4NextCodepoint','CmapSubtable4Lookup','cache_has_block','cache_alloc_block','cache_store'],
   'claims':'cache_subtable<format 4> over the proved contracts of NextCodepoint/Lookup: every block index used is below 0x100, a store only goes into a present block, the loop terminates (also for unordered tables: prevCodePoint strictly increases); for an ordered table every code point g_x != U+0001 below the limit that lies in a segment is stored with the value GID4(segment, g_x) = the direct lookup, and only code points of segments are stored (the rest of the zero-filled cache means unmapped)'}@*/
-/*@unit {'name':'c13_fill4_cover', 'props':['C13'], 'entry':'h_fill', 'enforce':'cache_subtable', 'min_loops':1, 'defines':['FMT=4','ASSUME_SORTED','COVER_ONE'], 'backend':'cvc5', 'cost':80,
+/*@unit {'name':'c13_fill4_cover', 'props':['C13'], 'entry':'h_fill', 'no_checks':['--bounds-check','--pointer-check','--div-by-zero-check','--signed-overflow-check','--undefined-shift-check','--pointer-primitive-check'], 'enforce':'cache_subtable', 'min_loops':1, 'defines':['FMT=4','ASSUME_SORTED','COVER_ONE'], 'backend':'cvc5', 'cost':80,
   'replace':['CmapSubtable4NextCodepoint','CmapSubtable4Lookup','cache_has_block','cache_alloc_block','cache_store'],
-  'replay':'c13_cmap', 'witness_defines':['FMT=4','ASSUME_SORTED','COVER_ONE'], 'witness_vars':['w_none'],
+  'replay':'c13_cmap', 'witness_defines':['FMT=4','ASSUME_SORTED','COVER_ONE'], 'witness_vars':['w_x'],
   'claims':'the same coverage clause for the code point U+0001 (fails on a tree where cache_subtable skips U+0001 after caching U+0000)'}@*/
 /*@unit {'name':'c13_fill12', 'props':['C13','C01'], 'entry':'h_fill', 'enforce':'cache_subtable', 'min_loops':1, 'defines':['FMT=12','ASSUME_SORTED'], 'backend':'cvc5', 'cost':80,
   'replace':['CmapSubtable12NextCodepoint','CmapSubtable12Lookup','cache_has_block','cache_alloc_block','cache_store'],
   'claims':'cache_subtable<format 12> over the proved contracts: every block index used is below 0x1100, a store only goes into a present block, the loop terminates; for ordered groups every code point g_x != U+0001 below the limit that lies in a group is stored with its format 12 glyph, and only code points of groups are stored'}@*/
-/*@unit {'name':'c13_fill12_cover', 'props':['C13'], 'entry':'h_fill', 'enforce':'cache_subtable', 'min_loops':1, 'defines':['FMT=12','ASSUME_SORTED','COVER_ONE'], 'backend':'cvc5', 'cost':80,
+/*@unit {'name':'c13_fill12_cover', 'props':['C13'], 'entry':'h_fill', 'no_checks':['--bounds-check','--pointer-check','--div-by-zero-check','--signed-overflow-check','--undefined-shift-check','--pointer-primitive-check'], 'enforce':'cache_subtable', 'min_loops':1, 'defines':['FMT=12','ASSUME_SORTED','COVER_ONE'], 'backend':'cvc5', 'cost':80,
   'replace':['CmapSubtable12NextCodepoint','CmapSubtable12Lookup','cache_has_block','cache_alloc_block','cache_store'],
-  'replay':'c13_cmap', 'witness_defines':['FMT=12','ASSUME_SORTED','COVER_ONE'], 'witness_vars':['w_none'],
+  'replay':'c13_cmap', 'witness_defines':['FMT=12','ASSUME_SORTED','COVER_ONE'], 'witness_vars':['w_x'],
   'claims':'the same coverage clause for the code point U+0001, format 12'}@*/
 /*@unit {'name':'c13_cached_ctor', 'props':['C13'], 'entry':'h_ctor', 'enforce':'CachedCmap_ctor', 'replace':['Face_cmap_table','bmp_subtable','smp_subtable','grzeroalloc_blocks','cache_subtable_4','cache_subtable_12'], 'defines':['CTOR'],
   'claims':'CachedCmap::CachedCmap over the contract of cache_subtable (c13_fill*): 0x1100 block pointers are allocated exactly when a format 12 subtable exists (else 0x100) and each fill is called with a limit its block array covers; after a complete construction the entry of a BMP code point below U+FFFF that format 4 maps holds the format 4 glyph (the format 4 pass runs last), the entry of a code point in U+10000..U+10FFFE holds the format 12 glyph or 0'}@*/
 /*@unit {'name':'c13_cached_ctor_bmp', 'props':['C13'], 'entry':'h_ctor', 'enforce':'CachedCmap_ctor', 'replace':['Face_cmap_table','bmp_subtable','smp_subtable','grzeroalloc_blocks','cache_subtable_4','cache_subtable_12'], 'defines':['CTOR','CTOR_BMP'],
-  'replay':'c13_cmap', 'witness_defines':['CTOR','CTOR_BMP'], 'witness_vars':['w_none'],
+  'replay':'c13_cmap', 'witness_defines':['CTOR','CTOR_BMP'], 'witness_vars':['w_x'],
   'claims':'CachedCmap::CachedCmap: a BMP code point that the format 4 subtable does not map has entry 0 (format 4 for the BMP, 0 when unmapped) - fails on a tree where the format 12 pass leaves its BMP entries in the cache'}@*/
 /*@unit {'name':'c13_cached_ctor_last', 'props':['C13'], 'entry':'h_ctor', 'enforce':'CachedCmap_ctor', 'replace':['Face_cmap_table','bmp_subtable','smp_subtable','grzeroalloc_blocks','cache_subtable_4','cache_subtable_12'], 'defines':['CTOR','CTOR_LAST'],
-  'replay':'c13_cmap', 'witness_defines':['CTOR','CTOR_LAST'], 'witness_vars':['w_none'],
+  'replay':'c13_cmap', 'witness_defines':['CTOR','CTOR_LAST'], 'witness_vars':['w_x'],
   'claims':'CachedCmap::CachedCmap: the entries of U+FFFF and U+10FFFF hold the glyph of the format 4 resp. format 12 subtable - fails on a tree whose fill limits exclude the last code point'}@*/
 /*@unit {'name':'c13_pseudo', 'props':['C13','C01'], 'entry':'h_pseudo', 'enforce':'Silf_findPseudo', 'min_loops':1,
   'claims':'Silf::findPseudo: reads only m_pseudos[0,m_numPseudo) (exact-size array, any count), writes nothing, terminates; returns the gid of the least-index entry whose uid equals the argument, 0 if there is none'}@*/
@@ -96,10 +96,7 @@ _Static_assert(offsetof(CmapSubTableFormat4, end_code) == 14 && offsetof(CmapSub
 #define GROUP12(p, i) ((const struct CmapGroup12 *)((const byte *)(p) + offsetof(CmapSubTableFormat12, group)) + (i))
 
 /*@include endian.tc@*/
-/*@extract {'file':'src/inc/Endian.h', 'scope': r'class be\s*\{', 'sig': r'inline static T swap\(const T x\)', 'emit':'static uint16 be_swap_uint16(const uint16 x)', 'casts':True,
-   'subs':[[r'_peek<sizeof\(T\)>', 'be_peek_2', 1], [r'\bT\b', 'uint16', 1]]}@*/
-/*@extract {'file':'src/inc/Endian.h', 'scope': r'class be\s*\{', 'sig': r'inline static T swap\(const T x\)', 'emit':'static uint32 be_swap_uint32(const uint32 x)', 'casts':True,
-   'subs':[[r'_peek<sizeof\(T\)>', 'be_peek_4', 1], [r'\bT\b', 'uint32', 1]]}@*/
+/* be_swap_uint16 / be_swap_int16 / be_swap_uint32 come from endian.tc; the int32 instance (the `fixed` format field) is extracted here */
 /*@extract {'file':'src/inc/Endian.h', 'scope': r'class be\s*\{', 'sig': r'inline static T swap\(const T x\)', 'emit':'static int32 be_swap_int32(const int32 x)', 'casts':True,
    'subs':[[r'_peek<sizeof\(T\)>', 'be_peek_4', 1], [r'\bT\b', 'int32', 1]]}@*/
 /* be::swap(x): template argument deduction == C11 generic selection on the (unpromoted) argument type */
@@ -866,12 +863,13 @@ void h_fill(void)
     g_nblocks = 0x1100;
 #endif
     g_blocks = malloc(g_nblocks * sizeof(uint16 *)); __CPROVER_assume(g_blocks != NULL);
+    uint32 w_x = nondet_uint();                                     /* the code point whose cache entry is watched */
 #ifdef COVER_ONE
-    g_x = 1;
+    w_x = 1;
 #else
-    __CPROVER_assume(g_x != 1);
+    __CPROVER_assume(w_x != 1);
 #endif
-    g_b = g_x >> 8; g_present = nondet_bool(); g_logged = false; g_g = g_s; g_g12 = g_s;
+    g_x = w_x; g_b = g_x >> 8; g_present = nondet_bool(); g_logged = false; g_g = g_s; g_g12 = g_s;
     g_in = IN_X(g_s, g_x); g_expect = g_in ? GID_X(g_s, g_x) : 0;
     __CPROVER_assume(g_in);                                         /* clauses about g_x outside every segment need no g_s */
     bool r = cache_subtable(g_blocks, t, FILL_LIMIT);
@@ -889,7 +887,8 @@ void h_ctor(void)
     g_tab = tab;
     g_bmp = nondet_bool() ? NULL : malloc(1); g_smp = nondet_bool() ? NULL : malloc(1);
     g_blocks = malloc(0x1100 * sizeof(uint16 *)); __CPROVER_assume(g_blocks != NULL);
-    g_x = nondet_uint(); g_in4 = nondet_bool(); g_in12 = nondet_bool(); g_l4 = nondet_u16(); g_l12 = nondet_u16();
+    uint32 w_x = nondet_uint();                                     /* the code point whose cache entry is watched */
+    g_x = w_x; g_in4 = nondet_bool(); g_in12 = nondet_bool(); g_l4 = nondet_u16(); g_l12 = nondet_u16();
     __CPROVER_assume(!g_in4 || g_x <= 0xFFFF);
     g_cset = false; g_fill_failed = false; g_nblocks = 0;
     CachedCmap_ctor(c, malloc(1));
